@@ -263,6 +263,25 @@ def parse_snap(content):
     return out
 
 
+def parse_snap_edited(content):
+    """parse_snap for a file that went through `fsedit` (top blank line, final newline, blank lines between
+    entries removed from outside) and possibly through later rewrites / appends of the library"""
+    if content and not content.startswith(b'\n'):
+        content = b'\n' + content
+    if content and not content.endswith(b'\n'):
+        content += b'\n'
+    content = content.replace(b'\n---\n[', b'\n---\n\n[')
+    return parse_snap(content)
+
+
+def edit_choice(r, execs, p=0.25):
+    """now and then the multi-entry files are edited from outside between the recording run and the next one
+    (harness op `fsedit`); not in worlds with standalone files, whose content is the value itself"""
+    if any(c.kind in ('sasnap', 'sajson') for _, calls in execs for _, c in calls) or r.random() >= p:
+        return None
+    return r.choice(['lead', 'tail', 'gaps', 'all'])
+
+
 def esc(b):
     return b'\n'.join(b'/-/-/-/' if l == b'---' else l for l in b.split(b'\n'))
 
